@@ -281,9 +281,11 @@ std::string runCase(const vio::Case &c) {
     world2.consoleIn = c.str("input");
     for (int k = 0; k < 8; k++) { world2.fileIn[k] = world.fileIn[k]; world2.fileInPresent[k] = world.fileInPresent[k]; }
     ref2.loadImage(file);
+    std::vector<long long> steps2;
     sim2->verifObserver = [&](hexsim::Processor &p) -> bool {
       refisa::Pre q = ref2.classify();
       uint32_t a0 = ref2.areg;
+      if (steps2.size() < 120000) { steps2.push_back((long long)ref2.pc); steps2.push_back((long long)q.inst); }
       ref2.step();
       cyc2++;
       if (q.isSvc) {
@@ -324,6 +326,7 @@ std::string runCase(const vio::Case &c) {
     std::vector<std::string> syms;
     for (auto &pr : dbg) { vio::Json s; s.str("name", pr.first).unum("offset", pr.second); syms.push_back(s.done()); }
     t.raw("loader_symbols", vio::jsonArray(syms));
+    t.raw("steps", vio::jsonNumArray(steps2));
     j.raw("trace", t.done());
   }
   unlink(binName);
